@@ -104,10 +104,54 @@ class C05(Check):
                 nontriv += 1
                 if got is None or not core.close(got, exp, 1e-12):
                     viol.append(dict(key=lines[t], got=ans[t], expected='value %r = identity over %s' % (exp, [lines[i] for i in comps]), what='defining identity violated'))
+        # ---- differential identities: DCS_Rayl = DCS_Thoms·FF_Rayl(q)²·N_A/A, DCS_Compt = DCS_KN·SF_Compt(q)·N_A/A with
+        #      q = MomentTransf(E, θ), and the polarised twins; two phases because q is itself a library result
+        dcases = sorted({(ints[0], dbls) for tab, fn, ints, dbls in cases if tab is ID_ZETP}, key=repr)
+        q_lines = sorted({self.line('MomentTransf', (), d[:2]) for _, d in dcases})
+        qv = dict(zip(q_lines, [val(a) for a in ctx.run_c(q_lines)]))
+        dl = []; dindex = {}
+        def dneed(l):
+            if l not in dindex: dindex[l] = len(dl); dl.append(l)
+            return dindex[l]
+        dplan = []
+        for Z, d in dcases:
+            E, th, ph = d
+            q = qv[self.line('MomentTransf', (), (E, th))]
+            aw = dneed(self.line('AtomicWeight', (Z,), ()))
+            ff = sf = None
+            if q not in (None, 'bad'):
+                ff = dneed(self.line('FF_Rayl', (Z,), (q,))); sf = dneed(self.line('SF_Compt', (Z,), (q,)))
+            kern = dict(T=dneed(self.line('DCS_Thoms', (), (th,))), K=dneed(self.line('DCS_KN', (), (E, th))),
+                        TP=dneed(self.line('DCSP_Thoms', (), (th, ph))), KP=dneed(self.line('DCSP_KN', (), (E, th, ph))))
+            for fn, k, form, args in (('DCS_Rayl', 'T', ff, (E, th)), ('DCS_Compt', 'K', sf, (E, th)), ('DCSP_Rayl', 'TP', ff, (E, th, ph)), ('DCSP_Compt', 'KP', sf, (E, th, ph))):
+                dplan.append((fn, dneed(self.line(fn, (Z,), args)), kern[k], form, aw, q))
+        dans = ctx.run_c(dl)
+        dn = 0
+        for fn, t, k, form, aw, q in dplan:
+            got = val(dans[t]); kv = val(dans[k]); av = val(dans[aw]); fv = val(dans[form]) if form is not None else None
+            if 'bad' in (got, kv, av, fv) or q == 'bad':
+                viol.append(dict(key=dl[t], got=dans[t], expected='a value or a proper failure', what='malformed outcome in a differential identity')); continue
+            dn += 1
+            if None in (kv, av, fv) or q is None:
+                if got is not None:
+                    viol.append(dict(key=dl[t], got=dans[t], expected='fails (a component is undefined)', what='differential cross section returned a number although kernel, form/scattering factor, momentum transfer or atomic weight is undefined'))
+                continue
+            if 'Rayl' in fn:
+                exp = AVOGNUM / av * fv * fv * kv
+            else:
+                exp = AVOGNUM / av * fv * kv
+            if exp == 0.0 and 'DCSP' in fn:
+                if got is not None and got != 0.0:
+                    viol.append(dict(key=dl[t], got=dans[t], expected='0 or a failure (the polarised kernel vanishes)', what='differential identity'))
+                continue
+            nontriv += 1
+            if got is None or not core.close(got, exp, 1e-12):
+                viol.append(dict(key=dl[t], got=dans[t], expected='value %r = N_A/A x kernel %r x factor %r (q = %r)' % (exp, kv, fv, q), what='differential identity violated'))
         stats.update(rule='every aggregate/unit-variant entry point x Z in [-1,122] x structured energies (range ends, edges, seeded log-uniform) x angle grid; expected value computed '
-                          'from the PUBLIC component functions of the real library; non-trivial = cases where all parts are defined',
-                     distinct_nontrivial=nontriv,
+                          'from the PUBLIC component functions of the real library (for the four differential cross sections: kernel x form/scattering factor at q = MomentTransf(E,theta) x N_A/A); '
+                          'non-trivial = cases where all parts are defined',
+                     distinct_nontrivial=nontriv, differential_identities=dn,
                      samples=[dict(call=lines[plan[i][1]], impl=ans[plan[i][1]], parts=[ans[j] for j in plan[i][2]]) for i in (0, len(plan) // 2, len(plan) - 1)])
-        return len(plan), viol, stats
+        return len(plan) + len(dplan), viol, stats
 
 CHECK = C05()
